@@ -166,6 +166,8 @@ def generate(rng, tier, n):
         if rng.random() < 0.10:                        # tiny non-zero magnitudes (below float32 eps, above its smallest subnormal)
             rows[rng.randrange(N)][rng.randrange(20)] = f2b(rng.choice([3e-8, -7.5e-10, 1e-20, -2.5e-30, 1.2e-7]))
         case = dict(cols=cols, rows=rows, build=rng.choice(["dict", "reindex", "late_nan"]))
+        case["default_type"] = rng.random() < 0.3      # G1: Motl.write_out(p) without motl_type (default must be 'emmotl')
+        case["same_path_twice"] = rng.random() < 0.2   # G2: the path already holds another (longer) list before the write
         if N >= 2 and rng.random() < 0.25:             # history: load the written file, drop particles, write again
             keep = sorted(rng.sample(range(N), rng.randint(1, N - 1)))
             case["reload_keep"] = keep
@@ -222,17 +224,23 @@ def run_impl(case):
     with tempfile.TemporaryDirectory(prefix="c01_") as td:
         for path_kind in ("motl", "emmotl"):
             p = os.path.join(td, f"{path_kind}.em")
+            if case.get("same_path_twice") and not case.get("malformed"):
+                # the same path first receives a different, longer list (and is loaded once): state must not carry over
+                other = pd.DataFrame({c: np.arange(len(df) + 3, dtype=float) + k for k, c in enumerate(DOCUMENTED)})
+                cryomotl.EmMotl(other).write_out(p)
+                cryomotl.Motl.load(p)
+            wo = (lambda m: m.write_out(p)) if case.get("default_type") else (lambda m: m.write_out(p, "emmotl"))
             try:
                 if late:
                     # holes appear AFTER construction (the constructor's own fillna cannot help the writer)
                     mm = (cryomotl.Motl if path_kind == "motl" else cryomotl.EmMotl)(df.fillna(1.0))
                     mm.df = mm.df.astype(float).where(~df.isna().to_numpy(), np.nan) if list(mm.df.columns) == list(df.columns) else mm.df
                     if path_kind == "motl":
-                        mm.write_out(p, "emmotl")
+                        wo(mm)
                     else:
                         mm.write_out(p)
                 elif path_kind == "motl":
-                    cryomotl.Motl(df.copy()).write_out(p, "emmotl")
+                    wo(cryomotl.Motl(df.copy()))
                 else:
                     cryomotl.EmMotl(df.copy()).write_out(p)
             except ValueError as e:
@@ -243,6 +251,7 @@ def run_impl(case):
             em["loaded_cols"] = [str(c) for c in m.df.columns]
             em["loaded"] = [[f2b(x) for x in row] for row in m.df.to_numpy(dtype=float).tolist()]
             em["loaded_type"] = type(m).__name__
+            em["loaded_dtypes"] = sorted({str(t) for t in m.df.dtypes})
             if case.get("reload_keep") and path_kind == "emmotl":
                 keep = case["reload_keep"]
                 ids = [i for i in range(len(m.df)) if i not in keep]
@@ -302,6 +311,8 @@ def judge(case, obs, resps):
             i = next(i for i, (a, b) in enumerate(zip(o["data"], exp)) if a != b)
             out.append(dict(kind="spec", clause="file-field-order-or-value",
                             detail=f"{k}: particle {i//20} field {DOCUMENTED[i%20]}: file holds bits {o['data'][i]:#x}, property demands {exp[i]:#x}"))
+        if o.get("loaded_dtypes") not in (["float64"], ["float32"]):
+            out.append(dict(kind="spec", clause="loaded-values", detail=f"{k}: loaded table has column dtypes {o.get('loaded_dtypes')} (numbers expected)"))
         if o.get("machine") != 6:
             out.append(dict(kind="spec", clause="file-shape", detail=f"{k}: machine code {o.get('machine')} (6 = little-endian PC expected)"))
         if "reload" in o:
@@ -346,6 +357,7 @@ def stats(case, obs, resps):
             ("transposition" if sum(a != b for a, b in zip(case["cols"], DOCUMENTED)) == 2 else "shuffle"))
     return {"N": "1" if n == 1 else ("20" if n == 20 else ("2-10" if n <= 10 else ("11-40" if n <= 40 else ">40"))), "perm": perm, "build": case.get("build", "dict"),
             "history": "load-drop-write" if case.get("reload_keep") else "single round trip",
+            "default_motl_type": bool(case.get("default_type")), "path_reused": bool(case.get("same_path_twice")),
             "all_nan_row": any(all(math.isnan(b2f(b)) for b in r) for r in case["rows"])}
 
 
